@@ -467,8 +467,32 @@ Proof. unfold handler_msgs. rewrite flat_map_snoc. reflexivity. Qed.
 Lemma client_acked_snoc l e : client_acked (l ++ [e]) = client_acked l ++ match e with (CS, CSend x, RNil) => [x] | _ => [] end.
 Proof. unfold client_acked. rewrite flat_map_snoc. reflexivity. Qed.
 
+Lemma rctx_mono s a p s' r :
+  get_pend s a = Some p -> In (s', r) (steps_of s a p) -> rctx s <> 0 -> rctx s' <> 0.
+Proof.
+  intros Hp Hin.
+  destruct a; destruct p as [o| | | | | |]; try (destruct Hin; fail); try destruct o; cbn [steps_of] in Hin;
+    try (destruct Hin; fail).
+  all: split_in Hin.
+  all: repeat match goal with H : (if ?c then _ else _) = (_, _) |- _ => destruct c eqn:? end.
+  all: try match goal with H : _ = (_, _) |- _ => unfold done, goto in H; injection H as <- <- end.
+  all: unfold rctx; fields; try (intro X; exact X).
+  all: destruct (negb (cctx s =? 0)); [intro X; exact X|].
+  all: rewrite ?orb_true_r; cbn [orb].
+  all: try (intros _; discriminate).
+  all: intro X; exact X.
+Qed.
+
+Lemma start_rctx s x s' : apply_start s x = Some s' -> rctx s <> 0 -> rctx s' <> 0.
+Proof.
+  destruct x as [a o| |]; intros Hs Hc.
+  - destruct (apply_start_call _ _ _ _ Hs) as [_ [-> _]]. destruct a; exact Hc.
+  - cbn in Hs. injection Hs as <-. destruct (cctx s =? 0) eqn:E; [unfold rctx; cbn; discriminate|exact Hc].
+  - cbn in Hs. injection Hs as <-. destruct (cctx s =? 0) eqn:E; [unfold rctx; cbn; discriminate|exact Hc].
+Qed.
+
 Definition DR (s : st) (h : hist) : Prop :=
-  (exists dr, rq h = handler_msgs (lg h) ++ dr /\ (dr <> [] -> sctx s <> 0)) /\
+  (exists dr, rq h = handler_msgs (lg h) ++ dr /\ (dr <> [] -> rctx s <> 0)) /\
   (exists un, rp h = client_acked (lg h) ++ un /\ (un <> [] -> cctx s <> 0)).
 
 Lemma DR_init rs : DR (init rs) hist0.
@@ -491,14 +515,14 @@ Lemma request_step s a p s' r h h' :
   qstepZ (reqQ s) (reqQ s') (rp h) (rq h) (rp h') (rq h') -> lg h' = log_step s a r (lg h) -> DR s' h'.
 Proof.
   intros [[dr [A1 A2]] [un [B1 B2]]] Hp Hin Hq Hl.
-  pose proof (sctx_mono s a p s' r Hp Hin) as Hmono.
+  pose proof (rctx_mono s a p s' r Hp Hin) as Hmono.
   unfold log_step in Hl. rewrite Hp in Hl.
   destruct a; destruct p as [o| | | | | |]; try (destruct Hin; fail); try destruct o; cbn [steps_of] in Hin;
     try (destruct Hin; fail).
   all: split_in Hin.
   all: repeat match goal with H : (if ?c then _ else _) = (_, _) |- _ => destruct c eqn:? end.
   all: try match goal with H : _ = (_, _) |- _ => unfold done, goto in H; injection H as <- <- end.
-  all: unfold DR; unfold sctx in *; fields; zb.
+  all: unfold DR; unfold rctx in *; fields; zb.
   all: repeat match goal with E : reqQ ?s = _ |- _ => rewrite E in *; clear E end.
   all: use_qZ Hq.
   all: try (split; [exists dr; split; [eqr A1|intro X; apply Hmono, A2, X]|exists un; split; [eqr B1|exact B2]]; fail).
@@ -530,7 +554,7 @@ Qed.
 Lemma start_DR s x s' h : DR s h -> apply_start s x = Some s' -> DR s' h.
 Proof.
   intros [[dr [A1 A2]] [un [B1 B2]]] Hs. split.
-  - exists dr. split; [exact A1|]. intro X. eapply start_sctx; eauto.
+  - exists dr. split; [exact A1|]. intro X. eapply start_rctx; eauto.
   - exists un. split; [exact B1|]. intro X. specialize (B2 X). intro Hc. apply B2. eapply start_cctx; eauto.
 Qed.
 
